@@ -7,7 +7,7 @@ from props import c01, c02
 
 ID = "C12"
 LEVEL = "proof"
-THEOREMS = ["C12_position_is_intersection", "C12_errors", "C12_changes_nothing_else", "C12_failed_fix_unchanged", "C12_starred_domain", "C12_composite_flat", "C12_composite_positions", "C12_signal_fix_changes_nothing_else", "C12_qualified_fix_changes_nothing_else", "C12_nested_binding_star_rule", "C12_double_star_cancels", "C12_entry_changes_only_constraints", "C12_file_changes_only_constraints", "C12_signal_fix_is_leaf_fixes", "C12_qualified_fix_is_fix_at_instance", "C12_unknown_name_only_warns"]
+THEOREMS = ["C12_position_is_intersection", "C12_errors", "C12_changes_nothing_else", "C12_failed_fix_unchanged", "C12_starred_domain", "C12_composite_flat", "C12_composite_positions", "C12_signal_fix_changes_nothing_else", "C12_qualified_fix_changes_nothing_else", "C12_nested_binding_star_rule", "C12_double_star_cancels", "C12_entry_changes_only_constraints", "C12_file_changes_only_constraints", "C12_signal_fix_is_leaf_fixes", "C12_qualified_fix_is_fix_at_instance", "C12_unknown_name_only_warns", "C12_leaf_fix_is_flat_fix"]
 TRUSTED = c02.TRUSTED + ["harness oracle expected_fixed: per-nucleotide intersection through the denotation (reverse complement for starred positions)"]
 ASSUMPTIONS = c02.ASSUMPTIONS + ["fixed strings use the alphabet the fixed-file reader accepts (ATCGNS and '+')"]
 
